@@ -38,6 +38,7 @@ Lemma fetcher_moves : forall s i f, panicked s = false -> nth_error (fetchers s)
 Proof.
   intros s i f Hp Hf Hd Hc. unfold fdone in Hd. destruct (f_ph f) eqn:E; try discriminate.
   - by_label (LFDial i DFail). rewrite Hp, Hf, E. discriminate.
+  - by_label (LFSeeCancel i). rewrite Hp, Hf, Hc, E. discriminate.
   - by_label (LFOffsets i DFail). rewrite Hp, Hf, E. discriminate.
   - by_label (LFSeeCancel i). rewrite Hp, Hf, Hc, E. discriminate.
   - by_label (LFSeeCancel i). rewrite Hp, Hf, Hc, E. discriminate.
@@ -136,7 +137,7 @@ Theorem close_post_quiescent_proof : forall c ls s, run step (init c) ls = Some 
   (forall l, is_env l = false -> step s l = None) -> live s = 0 /\ conns s = 0.
 Proof.
   intros c ls s R H Q. destruct (invs_reach _ _ _ R) as [I1 I2]. destruct (inv4_reach _ _ _ R) as [_ Hp _].
-  destruct (close_post_registry _ _ _ R H) as (_ & L & K & _).
+  destruct (close_post_registry _ _ _ R H) as (_ & L & K & NoL & _).
   pose proof (close_returned_at _ H) as C6.
   assert (Hs : stctx s = true) by (apply (i_stctx _ I1); apply (cl_at_mono 6); [lia|exact C6]).
   assert (Ha : all_exited s = true) by (apply (i_exited _ I1); apply (cl_at_mono 6); [lia|exact C6]).
@@ -156,7 +157,9 @@ Proof.
   assert (In1 : forall i x, nth_error (inners s) i = Some x -> x = IDone).
   { intros i x Hi. destruct x; auto; exfalso.
     - apply (N (LInDial i false)); [reflexivity|]. unfold step. rewrite Hp, Hi. discriminate.
-    - apply (N (LInOffsets i)); [reflexivity|]. unfold step. rewrite Hp, Hi. discriminate. }
+    - apply (N (LInOffsets i)); [reflexivity|]. unfold step. rewrite Hp, Hi. discriminate.
+    - exact (NoL i Hi).
+    - apply (N (LInExit i)); [reflexivity|]. unfold step. rewrite Hp, Hi. discriminate. }
   assert (C1 : count (fun i => negb (idone i)) (inners s) = 0).
   { apply count_false. intros x Hx. apply In_nth_error in Hx as (i & Hi). rewrite (In1 _ _ Hi). reflexivity. }
   assert (C2 : count iconn (inners s) = 0).
